@@ -49,6 +49,8 @@ value = st.one_of(
     st.builds(lambda dt, v: {"t": "arr", "dt": dt, "v": v}, st.sampled_from(["i1", "u1"]), st.sampled_from([127, 126, 0, 1])),
     st.builds(lambda v: {"t": "bool", "v": v}, st.booleans()),
     st.sampled_from([["ff", "61"], ["4dfc6c6c6572", "4d65696572"], ["61", "62"]]).map(lambda v: {"t": "strarr", "v": v}),
+    st.sampled_from(["2020-01-01T12:00:00", "1999-12-31T23:59:59"]).map(lambda v: {"t": "dt64", "v": v}),
+    st.sampled_from([0, 1, 42]).map(lambda v: {"t": "enum0", "v": v}),
 )
 bad_value = st.sampled_from(["object", "nulbytes", "ragged", "dict"]).map(lambda h: {"t": "bad", "v": h})
 small_value = st.one_of(st.builds(lambda v: {"t": "int", "v": v}, st.integers(0, 9)), value)
